@@ -230,6 +230,11 @@ def run_property(prop, tier, seed):
             violations.append((v['obligation'], path, v.get('no_input', False)))
         n_obl += eo.get('obligations', 0)
         n_dis += eo.get('discharged', 0)
+        for k_, v_ in (eo.get('by_backend') or {}).items():
+            by_backend[k_] = by_backend.get(k_, 0) + v_
+        if eo.get('obligations', 0) > eo.get('discharged', 0):
+            proof_lost.append({'contract': eo.get('name'), 'obligations': [eo.get('lemma', eo.get('name'))], 'reason': 'lemma not discharged: ' + str(eo.get('detail', ''))[-200:],
+                               'details': [], 'search': None})
 
     wall = time.time() - t_start
     # ---- report
